@@ -12,7 +12,16 @@ package main
 // the same id reconnects (the stale socket closes before the new one joins / while the new one is live /
 // after the new one left), a receiver presents another receiver's id, a receiver presents the HOST's id,
 // the host reconnects under its own id - strictly sequentially (every join waits for the server's
-// peer_list, every close for the server's FIN) and then apply the oracles of the ordinary rounds:
+// peer_list, every close for the server's FIN) and then apply the oracles of the ordinary rounds.
+//
+// The "full/..." histories put the duplicate id where the limit decides: the session is first filled with
+// fresh receivers until the server refuses one (F), and only then a connection with role=receiver presents
+// a peer id that is registered in the session AT THAT MOMENT - with another role (the host's id; the id of
+// a second sender-role connection that joined just before, which is never limited; once, repeatedly, as a
+// start-barrier burst) or with the same role (a live receiver's id, i.e. a reconnect into a full session),
+// or an id that was registered and has left. Such an attempt (T) may be admitted or refused - the property
+// does not say that a reconnect must get in - but the receiver sockets that are open afterwards are counted
+// as below.
 //
 //   dupid-recv     after the history the session is filled with fresh receivers one by one; the receiver
 //                  sockets the harness holds open that were not themselves replaced by a later registered
@@ -35,8 +44,14 @@ import (
 // c14DupOp: J = join as conn Name with peer id ID ("@host" = the host's id, "@wit" = the witness's id,
 // anything else = a fresh id drawn once per letter) and Role; C = close conn Name gracefully and wait for
 // the server's FIN ("host" names the first host socket).
+// F = fill: fresh receivers join one by one (conns fill0, fill1, ..; "@fill0" = the id of fill0) until the
+// server refuses one with the receiver limit, at most limit+1 attempts. T = like J, but the join may also
+// be refused with the receiver limit (an attempt against a session that is expected to be full).
+// B:n = n fresh ids join with role sender one by one, then all n ids join again with role receiver in a
+// start-barrier burst (each may be admitted or refused with the receiver limit).
 type c14DupOp struct {
 	Op, Name, ID, Role string
+	N                  int
 }
 
 func c14DupScript(s string) []c14DupOp {
@@ -44,8 +59,14 @@ func c14DupScript(s string) []c14DupOp {
 	for _, f := range strings.Fields(s) {
 		p := strings.Split(f, ":")
 		switch p[0] {
-		case "J":
-			out = append(out, c14DupOp{Op: "J", Name: p[1], ID: p[2], Role: map[string]string{"r": "receiver", "s": "sender"}[p[3]]})
+		case "J", "T":
+			out = append(out, c14DupOp{Op: p[0], Name: p[1], ID: p[2], Role: map[string]string{"r": "receiver", "s": "sender"}[p[3]]})
+		case "F":
+			out = append(out, c14DupOp{Op: "F"})
+		case "B":
+			n := 0
+			fmt.Sscan(p[1], &n)
+			out = append(out, c14DupOp{Op: "B", N: n})
 		case "C":
 			out = append(out, c14DupOp{Op: "C", Name: p[1]})
 		}
@@ -68,7 +89,19 @@ var c14DupRecvVariants = []c14DupVariant{
 	{"hosts-id/stays", "J:R:@host:r"},
 	{"hosts-id/leaves", "J:R:@host:r C:R"},
 	{"hosts-id/twice-first-leaves", "J:R:@host:r J:S:@host:r C:R"},
+	// the session is at its limit when the registered id is presented (see the header)
+	{"full/hosts-id-as-receiver", "F T:R:@host:r"},
+	{"full/hosts-id-as-receiver-twice", "F T:R:@host:r T:S:@host:r"},
+	{"full/second-senders-id-as-receiver", "F J:X:x:s T:Y:x:r"},
+	{"full/second-senders-id-as-receiver/sender-joined-before-the-fill", "J:X:x:s F T:Y:x:r"},
+	{"full/second-senders-id-as-receiver/repeated", "F J:X:x:s T:Y:x:r J:U:u:s T:V:u:r J:W:w:s T:Z:w:r"},
+	{"full/second-senders-id-as-receiver/burst", "F B:4"},
+	{"full/live-receivers-id-as-receiver", "F T:R:@fill0:r"},
+	{"full/live-receivers-id-as-sender-then-receiver", "F J:X:@fill0:s T:Y:@fill0:r"},
+	{"full/receiver-left-and-reconnects", "F C:fill0 T:R:@fill0:r"},
 }
+
+func c14DupFull(variant string) bool { return strings.HasPrefix(variant, "full/") }
 
 // host-left / expiry histories (host "host" and a witness receiver "wit" are connected before the script
 // starts; the script must not close a sender socket - the closing order of the sender sockets is Close)
@@ -133,6 +166,14 @@ type c14DupState struct {
 	conns map[string]*c14DupConn
 	order []*c14DupConn
 	log   []string
+
+	x        *c14Run // for the burst op
+	maxRecv  int
+	nFill    int
+	fullSeen int // fills (op F) that the server refused with the receiver limit
+	tries    int // joins of op T / B that were allowed to be refused
+	triesIn  int // .. admitted
+	triesOut int // .. refused with the receiver limit
 }
 
 func (s *c14DupState) add(name string, j *c14Join) *c14DupConn {
@@ -163,23 +204,76 @@ func (s *c14DupState) closeFIN(c *c14DupConn) (int64, bool) {
 func (s *c14DupState) run(ops []c14DupOp) string {
 	for _, op := range ops {
 		switch op.Op {
-		case "J":
+		case "J", "T":
 			pid := s.id(op.ID)
 			j := s.srv.join(nil, s.code, op.Role, pid, nil)
 			s.log = append(s.log, fmt.Sprintf("join %s peer=%s role=%s -> status=%d err=%q", op.Name, pid, op.Role, j.Status, j.ErrText))
+			if op.Op == "T" {
+				s.tries++
+				if !j.Upgraded() && j.Status == 429 && j.ErrText == c14ErrRecvLimit {
+					s.triesOut++
+					continue
+				}
+			}
 			if !j.Upgraded() {
 				return fmt.Sprintf("scripted join %s (peer %s, %s) was not admitted: %v", op.Name, pid, op.Role, j.brief())
 			}
-			if !j.WS.WaitRegistered(3 * time.Second) {
-				j.WS.Drop()
-				return fmt.Sprintf("scripted join %s: no peer_list from the server", op.Name)
+			if why := s.registered(op.Name, j); why != "" {
+				return why
 			}
-			for _, c := range s.order {
-				if !c.Closed && c.J.PeerID == pid {
-					c.Replaced = true
+			if op.Op == "T" {
+				s.triesIn++
+			}
+		case "F":
+			for i := 0; i < s.maxRecv+1; i++ {
+				name := fmt.Sprintf("fill%d", s.nFill)
+				pid := c14PeerID("dupfill")
+				j := s.srv.join(nil, s.code, "receiver", pid, nil)
+				s.log = append(s.log, fmt.Sprintf("fill %s peer=%s role=receiver -> status=%d err=%q", name, pid, j.Status, j.ErrText))
+				if j.Upgraded() {
+					if why := s.registered(name, j); why != "" {
+						return why
+					}
+					s.ids["@"+name] = pid
+					s.nFill++
+					continue
+				}
+				if j.Status == 429 && j.ErrText == c14ErrRecvLimit {
+					s.fullSeen++
+					break
+				}
+				return fmt.Sprintf("fill join %s: unexpected outcome %v", name, j.brief())
+			}
+		case "B":
+			specs := make([]c14JoinSpec, op.N)
+			for i := range specs {
+				pid := c14PeerID("dupburst")
+				j := s.srv.join(nil, s.code, "sender", pid, nil)
+				s.log = append(s.log, fmt.Sprintf("join burst-sender%d peer=%s role=sender -> status=%d err=%q", i, pid, j.Status, j.ErrText))
+				if !j.Upgraded() {
+					return fmt.Sprintf("scripted join burst-sender%d (peer %s, sender) was not admitted: %v", i, pid, j.brief())
+				}
+				if why := s.registered(fmt.Sprintf("burst-sender%d", i), j); why != "" {
+					return why
+				}
+				specs[i] = c14JoinSpec{s.code, "receiver", pid}
+			}
+			for i, j := range s.x.socketBurst(s.srv, specs, true) {
+				s.tries++
+				s.log = append(s.log, fmt.Sprintf("burst join burst-receiver%d peer=%s role=receiver -> status=%d err=%q neterr=%q", i, j.PeerID, j.Status, j.ErrText, j.NetErr))
+				switch {
+				case j.Upgraded():
+					// the ids of one burst are pairwise distinct: each of these joins can only replace its own sender socket
+					if why := s.registered(fmt.Sprintf("burst-receiver%d", i), j); why != "" {
+						return why
+					}
+					s.triesIn++
+				case j.Status == 429 && j.ErrText == c14ErrRecvLimit:
+					s.triesOut++
+				default:
+					return fmt.Sprintf("burst join %d (peer %s, receiver): unexpected outcome %v", i, j.PeerID, j.brief())
 				}
 			}
-			s.add(op.Name, j)
 		case "C":
 			c := s.conns[op.Name]
 			if c == nil {
@@ -188,6 +282,22 @@ func (s *c14DupState) run(ops []c14DupOp) string {
 			if _, ok := s.closeFIN(c); !ok {
 				return fmt.Sprintf("server's FIN for the close of %s was not observed (%s)", op.Name, c.J.WS.CloseInfo())
 			}
+		}
+	}
+	return ""
+}
+
+// registered waits for the server's peer_list of an admitted join, marks the open sockets of the same peer
+// id as replaced and records the new socket. A non-empty string = the history could not be produced.
+func (s *c14DupState) registered(name string, j *c14Join) string {
+	// the socket is recorded first so that dropAll closes it in every case
+	c := s.add(name, j)
+	if !j.WS.WaitRegistered(3 * time.Second) {
+		return fmt.Sprintf("scripted join %s: no peer_list from the server", name)
+	}
+	for _, o := range s.order {
+		if o != c && !o.Closed && o.J.PeerID == j.PeerID {
+			o.Replaced = true
 		}
 	}
 	return ""
@@ -222,11 +332,13 @@ func (x *c14Run) roundDupRecv(r c14Round, srv *c14Server) {
 		return
 	}
 	st := newC14DupState(srv, sess.Code, host)
+	st.x, st.maxRecv = x, cfg.MaxRecv
 	defer st.dropAll()
 	if why := st.run(c14DupScript(v.Script)); why != "" {
 		e.R.Inconcl(fmt.Sprintf("%s %s: %s", r.ID, r.key(), why))
 		return
 	}
+	full := c14DupFull(v.Name)
 	// fill with fresh receivers, one by one
 	specs := make([]c14JoinSpec, cfg.MaxRecv+3)
 	for i := range specs {
@@ -253,17 +365,37 @@ func (x *c14Run) roundDupRecv(r c14Round, srv *c14Server) {
 	caseSpec := map[string]any{"round": r, "flags": cfg.flags(), "script": v.Script}
 	obs := map[string]any{"round": r.key(), "history": st.log, "fill_joins": len(fills), "fill_admitted": t.Upgraded, "fill_refused_receiver_limit": t.RecvLimit, "refused_404": t.NotFound, "other": t.Other,
 		"receiver_sockets_held_open_and_not_replaced": upgraded, "of_those_answering_a_ping_after_settle": open, "replaced_sockets_left_open_by_the_server(not counted)": zombies, "max_receivers": cfg.MaxRecv}
+	if full {
+		obs["fills_refused_with_the_receiver_limit_before_the_registered_id_was_presented"] = st.fullSeen
+		obs["joins_presenting_a_registered_id_to_the_full_session"] = st.tries
+		obs["of_those_admitted"] = st.triesIn
+		obs["of_those_refused_receiver_limit"] = st.triesOut
+	}
 	if t.Other > 0 || t.ConnLimit > 0 || t.Rate > 0 {
 		e.R.Inconcl(fmt.Sprintf("%s %s: unexpected join outcome %s", r.ID, r.key(), t.OtherText))
 		return
 	}
-	x.st.sample("dupid-recv", obs)
-	x.st.limit("max-receivers:duplicate-peer-id", cfg.MaxRecv, open, len(fills))
+	if full {
+		x.st.sample("dupid-recv-full", obs)
+		x.st.limit("max-receivers:registered-peer-id-at-full-session", cfg.MaxRecv, open, len(fills)+st.tries+st.nFill+st.fullSeen)
+		x.st.count("dupid-recv:full:joins_presenting_a_registered_id_to_the_full_session", st.tries)
+		x.st.count("dupid-recv:full:of_those_admitted", st.triesIn)
+		x.st.count("dupid-recv:full:of_those_refused_receiver_limit", st.triesOut)
+		if st.fullSeen > 0 && st.tries > 0 {
+			x.st.count("dupid-recv:full:session_seen_full_before_the_id_was_presented:"+v.Name, 1)
+		}
+	} else {
+		x.st.sample("dupid-recv", obs)
+		x.st.limit("max-receivers:duplicate-peer-id", cfg.MaxRecv, open, len(fills))
+	}
 	x.st.count("dupid-recv:replaced_sockets_left_open_by_the_server", zombies)
 	if t.RecvLimit > 0 {
 		x.st.count("dupid-recv:rounds_in_which_the_limit_refused_a_fill", 1)
 	}
-	if open > cfg.MaxRecv {
+	if open > cfg.MaxRecv && full {
+		e.R.Violate("limit:max-receivers:registered-peer-id:session-full", fmt.Sprintf("%d receiver sockets of one session open at the same time (none of them replaced by a later join of its peer id; all answered a ping after the last join) with --max-receivers-per-sender %d, after a history in which the session was filled with fresh receivers until the server refused one and then %d connection(s) with role=receiver presented a peer id that was registered in that session (%s: %s; %d of them admitted), and then %d fresh receivers tried to join one by one",
+			open, cfg.MaxRecv, st.tries, v.Name, v.Script, st.triesIn, len(fills)), caseSpec, obs)
+	} else if open > cfg.MaxRecv {
 		e.R.Violate("limit:max-receivers:duplicate-peer-id", fmt.Sprintf("%d receiver sockets of one session open at the same time (none of them replaced by a later join of its peer id; all answered a ping after the last join) with --max-receivers-per-sender %d, after a history in which a peer id was presented twice (%s: %s) and then %d fresh receivers joined one by one",
 			open, cfg.MaxRecv, v.Name, v.Script, len(fills)), caseSpec, obs)
 	}
